@@ -70,7 +70,7 @@ def array_support_binary(func):
             x_arr, y_arr = np.asarray(x), y
             x_b, y_b = np.broadcast_arrays(x_arr.astype(object), y_arr.astype(object))
             vals = [func(u, v, **kwargs) for u, v in zip(x_b.ravel().tolist(), y_b.ravel().tolist())]
-            if x_arr.dtype == object or y_arr.dtype == object:
+            if x_arr.dtype == object or y_arr.dtype == object or any(isinstance(v, int) and not -2**63 <= v < 2**63 for v in vals):
                 vals = np.array(vals, dtype=object)     # python integers (extended precision) stay python integers
             else:
                 vals = np.array(vals)
